@@ -461,3 +461,23 @@ prop("C25", level="fault_enumeration",
            "distinct_sets list the stalled-peer actions and healthy request kinds that occurred."),
      min_nontrivial=dict(quick=150, thorough=2000),
      assumptions=_fs_assume)
+
+prop("C21", level="exploration",
+     stages=[
+         dict(pkg="taskq", test="TestC21Queue", sub="queue", race=True, vary_gomaxprocs=True, cases=dict(quick=1500, thorough=30000), timeout=3600),
+         dict(pkg="fullstack", test="TestC21", sub="incoming", race=True, vary_gomaxprocs=True, cases=dict(quick=200, thorough=3000), timeout=3600),
+         dict(pkg="fullstack", test="TestC21", sub="outgoing", race=True, vary_gomaxprocs=True, cases=dict(quick=200, thorough=3000), timeout=3600),
+     ],
+     technique="runtime monitoring: (queue) instrumented Executor on the real WorkerTaskQueue counting concurrent ExecuteTask invocations per queue and per peer, exactly-once and bounded-progress monitors over generated arrival patterns with gated task durations; (incoming/outgoing) end-to-end: traversals parked at per-DAG store gates / raw responders that answer on command, concurrency and work-conservation oracles at logical-quiescence snapshots; Go race detector",
+     level_text=("queue: W in {1,2,3,6} workers, per-peer limit unset/1/2 (configured as impl.New configures the response queue), 2-6 peers, 15-55 steps of {burst push (one flooding peer), "
+                 "release a running task, Remove a pending task}; monitors: concurrent ExecuteTask <= W, per peer <= P (until TaskDone), no task executed twice or after removal, an eligible "
+                 "pending task next to a free worker must start within 40 ticker rounds (logical bound; ticker rounds are reported by a hook), everything not removed has run when the script ends. "
+                 "incoming: 2-4 raw requestor peers -> real responder, every traversal parked at a store gate, 10-35 steps of {burst of requests, release, requestor/responder cancel of queued or running "
+                 "requests, request immediately cancelled}; at every quiescent snapshot: parked <= W, per peer <= P, and no un-cancelled waiting request whose peer is below its limit while a worker is free "
+                 "(re-confirmed over sustained quiescent windows); after the drain every un-cancelled request has a terminal answer. outgoing: the same for MaxInProgressOutgoingRequests with raw responders."),
+     level_note="'Eventually' is decided as bounded progress (ticker rounds / sustained logical quiescence). Starvation verdicts in the end-to-end stages are re-confirmed over 3 sustained windows of 1.2 s (12 thaw periods each) because thawing a peer after a removed task is clock driven in the code itself.",
+     rule=("One evaluation = one generated history. Non-trivial = the history ran to the end with all snapshots taken; distinct by (W, P, peers, size, case); counters report how many histories reached the worker limit "
+           "and the per-peer limit exactly (the interesting boundary)."),
+     min_nontrivial=dict(quick=1500, thorough=30000),
+     min_counters=dict(cases_reaching_worker_limit=dict(quick=800, thorough=15000), cases_reaching_per_peer_limit=dict(quick=300, thorough=5000)),
+     assumptions=_fs_assume)
